@@ -24,6 +24,7 @@ BIG = mpf(2) ** 40
 SMALL = mpf(2) ** -40
 REL_MARGIN = mpf("1e-6")
 FIRST_ORDER_MAX = mpf("1e-7")
+COUNTERS: dict = {}  # observations of the evaluator itself (e.g. saturated sigmoids met)
 RANGE_HI = mpf("1e300")
 RANGE_LO = mpf("1e-290")
 
@@ -499,6 +500,7 @@ class Evaluator:
             # saturated: 1/(1 + exp(z)) is 0 or 1 to within exp(-600); float64 evaluates it so as well (1/(1 + inf) = 0)
             if z.e > 1:
                 raise Undecidable("saturated sigmoid with an uncertain argument")
+            COUNTERS["saturated_sigmoid"] = COUNTERS.get("saturated_sigmoid", 0) + 1
             H = Val(ZERO if z.v > 0 else ONE, mpf("1e-250"), False, ZERO if self.want_d else None, ZERO if self.want_d else None)
         else:
             H = self._div(one, self._add(one, self.f_exp(z), 1))
